@@ -583,7 +583,10 @@ func (p *parser) BasicParser(urlOrRef string, baseUrl *Url, url *Url, stateOverr
 						url.path.addSegment("")
 					}
 				} else if isSingleDotPathSegment(buffer.String()) && r != '/' && !url.isSpecialSchemeAndBackslash(r) {
-					url.path.addSegment("")
+					// collapsing consecutive slashes: a trailing "." after an empty last segment must not add a second one
+					if !p.opts.collapseConsecutiveSlashes || !url.IsSpecialScheme() || url.path.isEmpty() || len(url.path.p[len(url.path.p)-1]) > 0 {
+						url.path.addSegment("")
+					}
 				} else if !isSingleDotPathSegment(buffer.String()) {
 					if url.scheme == "file" && url.path.isEmpty() && isWindowsDriveLetter(buffer.String()) {
 						// replace second code point in buffer with U+003A (:).
